@@ -11,7 +11,7 @@
    files, and every mixture.  `run` returning Some also says no call failed with an OS error. *)
 From Coq Require Import NArith List Bool.
 Require Import DS.Model.Durable DS.Proofs.DurableProofs DS.Proofs.DurablePrograms DS.Proofs.DurablePublish.
-Require Import DS.Model.DurableChunks DS.Proofs.DurableChunksProofs.
+Require Import DS.Model.DurableChunks DS.Proofs.DurableChunksProofs DS.Proofs.DurableBurstsProofs.
 Import ListNotations.
 Open Scope N_scope.
 
@@ -106,23 +106,113 @@ Theorem C16_chunked_each_publish : forall (s0 : fs) (d n : N) (chs : list chunk)
 Proof. exact chunked_each_publish. Qed.
 Print Assumptions C16_chunked_each_publish.
 
-(* ... and the chunked publish is accepted by the publish discipline wherever the one-Write publish is (temp name
-   unused, final name fresh, references durable), leaving the final name linked to the whole content with a durable
-   entry: C16_disciplined_safe applies to histories whose data files were written in bursts. *)
-Theorem C16_chunked_disciplined : forall g d n chs,
-  tmps g (T d n) = None -> st g (P d n) = Fresh -> forallb (ref_ok g) (refs (chunks_content chs)) = true ->
-  exists g', checks g (publish_data_chunked (P d n) chs) = Some g'
-             /\ st g' (P d n) = Linked (chunks_content chs) true.
-Proof. exact chunked_disciplined. Qed.
+(* ---- the ops-level theorems over burst-written files (second audit, MEDIUM) ---------------------------------------
+   `burst_of tr' tr` (Model/DurableChunks.v): tr' is tr with ANY of its Write calls -- to data files, manifests,
+   metadata files, the pointer: whichever -- replaced by a list of bursts of the same content (any number, any sizes),
+   each burst optionally followed by an incremental fsync of that file; all other calls kept in place.
+   `gsim g' g` (Proofs/DurableBurstsProofs.v): the two ghost states agree on the state of EVERY final name, on the
+   referenced set, and on which temps are open with which content; the left one's temps are at least as synced.
+
+   The chunked data writer is a burst refinement of the one-Write data writer trace_of is made of ... *)
+Theorem C16_chunked_is_burst_of : forall p chs,
+  burst_of (publish_data_chunked p chs) (publish_data p (chunks_content chs)).
+Proof. exact chunked_is_burst_of. Qed.
+Print Assumptions C16_chunked_is_burst_of.
+
+(* ... the publish discipline accepts every burst refinement of every trace it accepts, from similar ghost states to
+   similar ghost states (this is the frame the first version of C16_chunked_disciplined lacked: nothing else changes) ... *)
+Theorem C16_burst_refines : forall tr' tr, burst_of tr' tr -> forall g' g g1, gsim g' g -> checks g tr = Some g1 ->
+  exists g1', checks g' tr' = Some g1' /\ gsim g1' g1.
+Proof. exact burst_refines. Qed.
+Print Assumptions C16_burst_refines.
+
+(* ... in particular for one data file: wherever the one-Write publish of the whole content is accepted, the chunked
+   publish is accepted and leaves the same ghost state (every final name, the referenced set, no temp open) *)
+Theorem C16_chunked_disciplined : forall g p chs g1,
+  checks g (publish_data p (chunks_content chs)) = Some g1 ->
+  exists g1', checks g (publish_data_chunked p chs) = Some g1' /\ gsim g1' g1.
+Proof. exact chunked_disciplined_frame. Qed.
 Print Assumptions C16_chunked_disciplined.
 
-(* What may NOT depend on the sizes.  ANY trace in which a Write to a file is directly followed by the Rename of that
-   file -- no fsync after the LAST write, whatever was synced incrementally before -- is rejected by the discipline,
-   from every ghost state, whatever precedes and follows. *)
-Theorem C16_unsynced_tail_rejected : forall g pre f b q post,
-  checks g (pre ++ Write f b :: Rename f q :: post) = None.
-Proof. exact unsynced_tail_rejected. Qed.
+(* THE HEADLINE THEOREM OVER BURST-WRITTEN FILES: C16_durable_prefix with trace_of ops replaced by ANY burst
+   refinement of it.  For every well-formed history, every way of writing its files in bursts, every prefix of that
+   trace, every power-loss outcome: a surviving pointer's reachable files are durably present with exactly their
+   intended (whole) content.  Not lifted: a burst refinement of a FAILED publish (OFail: the failing publish keeps the
+   shape failed_of gives it -- its Write may still be split, but a failure BETWEEN two bursts is the k = 1 / k = 2
+   case of the one-Write model only up to the content written so far; such a file is never renamed, so never reachable). *)
+Theorem C16_durable_prefix_bursts : forall ops, wf ops = true ->
+  forall tr', burst_of tr' (trace_of ops) ->
+  forall n es, calls_of es = firstn n tr' ->
+  exists s', run fs0 es = Some s' /\ safe_state s' /\
+    forall v, pointer (power_loss s') = Some v ->
+    forall k, reachable_from ops v k ->
+      exists c, intended ops k = Some c /\ content_at (power_loss s') k = Some c /\ content_at (vol s') k = Some c.
+Proof. exact durable_prefix_bursts. Qed.
+Print Assumptions C16_durable_prefix_bursts.
+
+(* C16_acked_durable over burst refinements: A' refines the history up to and including the commit's pointer publish,
+   B' refines what follows (marker cleanup, rolled-back / failed transactions); once all of A' was issued the pointer
+   names the acknowledged commit under every power-loss outcome. *)
+Theorem C16_acked_durable_bursts : forall ops c rest, forallb is_abort rest = true ->
+  wf (ops ++ OCommit c :: rest) = true ->
+  forall A' B', burst_of A' (trace_of ops ++ commit_body c) -> burst_of B' (commit_cleanup c ++ trace_of rest) ->
+  forall n es, (length A' <= n)%nat -> calls_of es = firstn n (A' ++ B') ->
+  exists s', run fs0 es = Some s'
+    /\ pointer (power_loss s') = Some (pf_path (c_meta c)) /\ pointer (vol s') = Some (pf_path (c_meta c)).
+Proof. exact acked_durable_bursts. Qed.
+Print Assumptions C16_acked_durable_bursts.
+
+(* non-vacuity: create_table, then an append whose data file P 3 3 is written as a row-group burst with an
+   incremental fsync followed by a footer burst; the pointer's rename of the append is written back early *)
+Definition ex_bchunks : list chunk := [mkChunk [Raw 700] true; mkChunk [Raw 69] false].
+Definition ex_bops : list op :=
+  [OCommit (mkCommit [] [] [] (mkPub (P 1 1) [Raw 1048]) [Raw 25; Ref (P 1 1)]);
+   OCommit (mkCommit [mkItem (mkPub (P 2 2) [Raw 51]) (mkPub (P 3 3) (chunks_content ex_bchunks))]
+           [mkItem (mkPub (P 2 4) [Raw 75]) (mkPub (P 4 5) [Raw 1602; Ref (P 3 3)])]
+           [mkItem (mkPub (P 2 6) [Raw 95]) (mkPub (P 4 7) [Raw 829; Ref (P 4 5)])]
+           (mkPub (P 1 8) [Raw 1587; Ref (P 4 7)]) [Raw 25; Ref (P 1 8)])].
+Definition ex_btrace : list call :=
+  firstn 16 (trace_of ex_bops) ++ bursts (T 3 3) ex_bchunks ++ skipn 17 (trace_of ex_bops).
+Example C16_bursts_nonvacuous :
+  wf ex_bops = true
+  /\ burst_of ex_btrace (trace_of ex_bops)
+  /\ length ex_btrace = S (S (length (trace_of ex_bops)))
+  /\ firstn 5 (skipn 15 ex_btrace) = [Create (T 3 3); Write (T 3 3) [Raw 700]; Fsync (T 3 3); Write (T 3 3) [Raw 69]; Fsync (T 3 3)]
+  /\ (exists s', run fs0 (map Call (firstn 51 ex_btrace) ++ [Bg (PEntry PTR)]) = Some s'
+        /\ pointer (power_loss s') = Some (P 1 8)
+        /\ content_at (power_loss s') (P 3 3) = Some [Raw 700; Raw 69])
+  /\ (exists s', exec fs0 (firstn 18 ex_btrace) = Some s' /\ content_at (vol s') (T 3 3) = Some [Raw 700]).
+Proof.
+  split; [vm_compute; reflexivity|]. split.
+  - replace (trace_of ex_bops) with (firstn 16 (trace_of ex_bops) ++ Write (T 3 3) (chunks_content ex_bchunks) :: skipn 17 (trace_of ex_bops))
+      by (vm_compute; reflexivity).
+    unfold ex_btrace. apply burst_of_app; [apply burst_of_refl|]. apply bo_split. apply burst_of_refl.
+  - split; [vm_compute; reflexivity|]. split; [vm_compute; reflexivity|]. split.
+    + eexists. split; [vm_compute; reflexivity|]. vm_compute. auto.
+    + eexists. split; [vm_compute; reflexivity|]. vm_compute. auto.
+Qed.
+
+(* What may NOT depend on the sizes.  ANY trace in which a Write to a file is followed by the Rename of that file with
+   no fsync of it in between -- directly, or with ANY other calls in between (writes to other files, their fsyncs,
+   renames, directory fsyncs ...; second audit: the first version covered the adjacent shape only), whatever was synced
+   incrementally before -- is rejected by the discipline, from every ghost state, whatever precedes and follows.
+   (An Unlink of the file in between is excluded too: then there is nothing left to rename.) *)
+Theorem C16_unsynced_tail_rejected : forall g pre f b mid q post,
+  Forall (fun c => c <> Fsync f /\ c <> Unlink f) mid ->
+  checks g (pre ++ Write f b :: mid ++ Rename f q :: post) = None.
+Proof. exact unsynced_tail_rejected_gen. Qed.
 Print Assumptions C16_unsynced_tail_rejected.
+
+(* non-vacuity: another file's complete publish lies between the footer write and the rename *)
+Example C16_unsynced_tail_nonvacuous :
+  let mid := publish_meta (P 2 2) [Raw 51] in
+  Forall (fun c => c <> Fsync (T 3 3) /\ c <> Unlink (T 3 3)) mid
+  /\ checks g0 ([Create (T 3 3); Write (T 3 3) [Raw 700]; Fsync (T 3 3)] ++ Write (T 3 3) [Raw 69] :: mid ++ Rename (T 3 3) (P 3 3) :: [FsyncDir 3]) = None
+  /\ disciplined ([Create (T 3 3); Write (T 3 3) [Raw 700]; Fsync (T 3 3)] ++ Write (T 3 3) [Raw 69] :: mid ++ Fsync (T 3 3) :: Rename (T 3 3) (P 3 3) :: [FsyncDir 3]) = true.
+Proof.
+  split; [|split; vm_compute; reflexivity].
+  repeat constructor; intro E; discriminate.
+Qed.
 
 (* In particular the data writer without close()'s fsync (a writer that trusts its own bookkeeping of what was
    synced incrementally) is rejected for every list of bursts whose last burst has no fsync of its own ... *)
